@@ -168,12 +168,42 @@ func (r *requestContext) rewriteRequest(targetURL *url.URL) func(req *httputil.P
 			proxyReq.Out.Header.Set("Forwarded", x.IfThenElseExec(len(forwarded) == 0,
 				func() string {
 					return fmt.Sprintf("for=%s;host=%s;proto=%s",
-						clientIP, proxyReq.In.Host, proto)
+						forwardedNode(clientIP), forwardedValue(proxyReq.In.Host), proto)
 				},
 				func() string {
 					return fmt.Sprintf("%s, for=%s;host=%s;proto=%s",
-						forwarded, clientIP, proxyReq.In.Host, proto)
+						forwarded, forwardedNode(clientIP), forwardedValue(proxyReq.In.Host), proto)
 				}))
 		}
 	}
+}
+
+// forwardedValue returns the given value in the form required for a parameter of the Forwarded header: as is,
+// if it is a token, and as quoted string otherwise (RFC 7239, section 4). A value taken from the request, like
+// the host, could otherwise introduce further parameters, or even further elements into the header.
+func forwardedValue(value string) string {
+	isToken := len(value) != 0
+
+	for i := 0; i < len(value) && isToken; i++ {
+		char := value[i]
+
+		isToken = ('a' <= char && char <= 'z') || ('A' <= char && char <= 'Z') || ('0' <= char && char <= '9') ||
+			strings.IndexByte("!#$%&'*+-.^_`|~", char) >= 0
+	}
+
+	if isToken {
+		return value
+	}
+
+	return `"` + strings.NewReplacer(`\`, `\\`, `"`, `\"`).Replace(value) + `"`
+}
+
+// forwardedNode returns the given ip address in the form required for the for parameter of the
+// Forwarded header: IPv6 addresses are enclosed in square brackets and quoted (RFC 7239, section 6).
+func forwardedNode(ip string) string {
+	if strings.Contains(ip, ":") {
+		return `"[` + ip + `]"`
+	}
+
+	return forwardedValue(ip)
 }
